@@ -584,3 +584,49 @@ def replay_integer_bitwise(payload):
 
     rc, out = _run_design(_INT_BITWISE_DESIGN)
     return {"reproduced": "ACCEPTED" in out, "detail": "`self.o <<= self.i & 3` with integer ports: " + out[-100:]}
+
+
+# constants of the type cohdl.Integer next to Unsigned operands: the same number as a Python int -- written as a NATURAL (negative
+# values modulo 2**width where the operation wraps, rejected otherwise), not verbatim as a negative VHDL integer
+C.inline("cohdl._core._integer:Integer.get_value")
+
+
+def integer_constant(pfx):
+    return Built([pfx + "k"], lambda env: SObj(_Integer, _val=env[pfx + "k"]), lambda asg: f"cohdl.Integer({asg[pfx + 'k']})", lambda asg: asg[pfx + "k"], None,
+                 lambda rng, asg: asg.__setitem__(pfx + "k", rng.randint(-20, 300)))
+
+
+def _unwrap_integer(fn):
+    def spec(sx, a, b):
+        a = a.fields["_val"] if isinstance(a, SObj) and a.kind is _Integer else a
+        b = b.fields["_val"] if isinstance(b, SObj) and b.kind is _Integer else b
+        return fn(sx, a, b)
+
+    return spec
+
+
+for op, fn in ARITH.items():
+    add_case(_bcon, f"{op.name}:Unsigned,Integer-constant", VR.BinOp, op, [vec_operand(Unsigned, "a"), integer_constant("b")], _unwrap_integer(fn)).custom_replay = "contracts.c02_ops.replay_negative_integer_constant"
+
+_NEG_INTEGER_DESIGN = '''
+import re
+from cohdl import Entity, Port, Unsigned, Integer, std
+IM1 = Integer(-1)
+class E(Entity):
+    a = Port.input(Unsigned[4])
+    s = Port.output(Unsigned[4])
+    def architecture(self):
+        @std.concurrent
+        def logic():
+            self.s <<= self.a + IM1
+t = std.VhdlCompiler.to_string(E)
+bad = re.findall(r"\\(a\\) \\+ \\(-\\d+\\)", t)
+print("NEGATIVE-NATURAL" if bad else "NATURAL", bad or re.findall(r"\\(a\\) \\+ \\(\\d+\\)", t))
+'''
+
+
+def replay_negative_integer_constant(payload):
+    from contracts.c06_extra import _run_design
+
+    rc, out = _run_design(_NEG_INTEGER_DESIGN)
+    return {"reproduced": rc == 0 and "NEGATIVE-NATURAL" in out, "detail": "`a + Integer(-1)` with a : Unsigned[4]: " + out[-80:]}
